@@ -149,6 +149,15 @@ def act_scn(a):
     raise ValueError(a)
 
 
+def child_exit_variant(root, reporter, mode):
+    """half of the scenarios with forked tests end their test processes with _exit() (chosen by the scenario's
+    own content, so that a replay reproduces it)"""
+    if mode == "inproc":
+        return False
+    n = sum(1 + len(t.body) for _, t in root.tests())
+    return (n + len(reporter)) % 2 == 0
+
+
 def scn_text(root, reporter, mode, log):
     out = ["reporter " + reporter, "log " + log]
     if mode == "twice":
@@ -159,6 +168,11 @@ def scn_text(root, reporter, mode, log):
         out.append("run single t%d" % mode[1])
     else:
         out.append("run suite")
+    if child_exit_variant(root, reporter, mode):
+        # the documented switch between exit() and _exit() at the end of a test process; no property depends on it
+        out.append("env CGREEN_CHILD_EXIT_WITH__EXIT 1")
+    else:
+        out.append("# test processes end with exit()")      # keeps the line numbers the same in every mode
 
     def emit(n, parent):
         if isinstance(n, Suite):
